@@ -592,6 +592,7 @@ func run(r *vk.Run) {
 		"time: the resource gets a counting fake clock; with WithWriteTime(t) the event time must equal t, otherwise it must be one of the clock readings taken during the call, and a seed must carry a reading taken during the last successful write of that item",
 		"two equivalences are used: same default_int32 (an equivalence relation) and |difference of default_int32| <= 1 (a tolerance, not transitive); both are applied to what the subscriber holds for the id (the value last sent to it, read-masked; before anything was sent, the previous stored value), which is what 'suppressed consecutive equivalent values' means for a non-transitive comparer")
 	forcedJoin(r)
+	forcedJoinDuringSend(r)
 	idx := 0
 	for _, isVal := range []bool{false, true} {
 		ops := colOps()
